@@ -14,9 +14,9 @@ pub const PER_BATCH: u64 = 250;
 
 pub fn plan(tier: &str, seed: u64) -> Vec<Batch> {
     let (warm, fresh) = match tier {
-        "thorough" => (100, 3000u64),
+        "thorough" => (400, 12000u64),
         "dev" => (1, 16),
-        _ => (8, 320),
+        _ => (40, 1600),
     };
     let mut v = Vec::new();
     for uni in [UniCfg::k(), UniCfg::e()] {
